@@ -62,6 +62,7 @@ def extract(src):
         'sdc_safe': ['GET', 'HEAD', 'OPTIONS', 'TRACE'], 'sdc_check_origin': True,
         'sdc_allow_no_origin': False, 'sdc_callback_none': True,
         'token_arg_default': 'csrf_token', 'header_arg_default': 'X-CSRF-Token',
+        'sdc_order': -20, 'policy_order': 0, 'view_order': 0,
     }
 
     # ---------------- csrf.py
@@ -284,6 +285,45 @@ def extract(src):
     except Exception as e:
         problems.append('set_default_csrf_options defaults not recognised: %r' % (e,))
 
+    # ---------------- execution order (`order=`) of the directives' actions relative to add_view's
+    try:
+        def action_order(fn, where, default, phases):
+            calls = [c for c in _walk(fn, ast.Call) if isinstance(c.func, ast.Attribute) and c.func.attr == 'action'
+                     and isinstance(c.func.value, ast.Name) and c.func.value.id == 'self']
+            if len(calls) != 1:
+                raise ValueError('%s: expected one self.action(...) call, found %d' % (where, len(calls)))
+            kws = [k for k in calls[0].keywords if k.arg == 'order']
+            if any(k.arg is None for k in calls[0].keywords) or len(calls[0].args) > 4:
+                raise ValueError('%s: action call of unknown form' % where)
+            if not kws:
+                return default
+            val = kws[0].value
+            if isinstance(val, ast.Name) and val.id in phases:
+                return phases[val.id]
+            lit = ast.literal_eval(val)
+            if not isinstance(lit, int) or isinstance(lit, bool):
+                raise ValueError('%s: order is not an int' % where)
+            return lit
+        im = F.Module(src, 'pyramid/interfaces.py')
+        phases = {n: im.const(n) for n in ('PHASE0_CONFIG', 'PHASE1_CONFIG', 'PHASE2_CONFIG', 'PHASE3_CONFIG')}
+        if not all(isinstance(x, int) for x in phases.values()):
+            raise ValueError('phase constants')
+        am = F.Module(src, 'pyramid/config/actions.py')
+        adef = am.find('ActionConfiguratorMixin.action')
+        names = [a.arg for a in adef.args.args]
+        default = ast.literal_eval(adef.args.defaults[names.index('order') - (len(names) - len(adef.args.defaults))])
+        if not isinstance(default, int):
+            raise ValueError('default order')
+        sm = F.Module(src, 'pyramid/config/security.py')
+        v['sdc_order'] = action_order(sm.find('SecurityConfiguratorMixin.set_default_csrf_options'),
+                                      'set_default_csrf_options', default, phases)
+        v['policy_order'] = action_order(sm.find('SecurityConfiguratorMixin.set_csrf_storage_policy'),
+                                         'set_csrf_storage_policy', default, phases)
+        v['view_order'] = action_order(F.Module(src, 'pyramid/config/views.py').find('ViewsConfiguratorMixin.add_view'),
+                                       'add_view', default, phases)
+    except Exception as e:
+        problems.append('action orders not recognised: %r' % (e,))
+
     # ---------------- third-party constants of the running interpreter (urllib.parse, str.isspace)
     import urllib.parse as up
     try:
@@ -322,6 +362,8 @@ def emit(v):
                        '; '.join('(%d%%N, %s)' % (t, F.coq_text(s)) for t, s in x))
         elif isinstance(x, bool):
             out.append('Definition %s : bool := %s.\n' % (k, F.coq_bool(x)))
+        elif isinstance(x, int):
+            out.append('Definition %s : Z := (%d)%%Z.\n' % (k, x))
         elif isinstance(x, str):
             out.append('Definition %s : text := %s.\n' % (k, F.coq_text(x)))
         elif isinstance(x, list) and all(isinstance(e, str) for e in x) and not k.startswith(('url_', 'py_')):
